@@ -1212,7 +1212,7 @@ class Memory(Logger):
         # Defers the actual limits enforcing to the store backend.
         self.store_backend.enforce_store_limits(bytes_limit, items_limit, age_limit)
 
-    def eval(self, func, *args, **kwargs):
+    def eval(self, func, /, *args, **kwargs):
         """Eval function func with arguments `*args` and `**kwargs`,
         in the context of the memory.
 
